@@ -192,3 +192,34 @@ def run(ctx):
                           "initial role state is built from the persisted hard state",
                           "initial %s is constructed without the hard state loaded from storage (term/vote restart from defaults)" % role, loc(b, bi))
         ctx.floor("C02-d", n, 2, "initial role constructors in NodeBuilder::build")
+
+
+# ---------------------------------------------------------------------------------------------- C02-b'
+_run_c02 = run
+
+SHARED_DIRECT_OK = {
+    "RaftRoleState::update_current_term": "the delegating default method (its callers are the C02-a / C02-c sites)",
+    "RaftRoleState::increase_current_term": "delegating default method",
+    "RaftRoleState::reset_voted_for": "delegating default method",
+    "RaftRoleState::update_voted_for": "delegating default method",
+    "LeaderState::update_voted_for": "LeaderState's override of the delegating method (a C02-a site through the trait)",
+}
+
+
+def run(ctx):
+    _run_c02(ctx)
+    F = ctx.F
+    # who may call the inherent SharedState mutators directly: only the delegating RaftRoleState methods. A direct
+    # `self.shared_state.update_current_term(t)` elsewhere would be neither a persist-before-reply nor a monotonicity site.
+    n = 0
+    for (croot, cbid, cbi, ct) in F.callers_of(lambda k: re.search(r"SharedState::(update_current_term|increase_current_term|update_voted_for|reset_voted_for)$", strip_generics(k)) is not None):
+        cb = F.bodies[cbid]
+        if cb.crate not in ("d_engine_core", "d_engine_server") or re.search(r"(_test|/tests?/|test_utils|mock)", cb.file or ""):
+            continue
+        n += 1
+        fk = fkey(croot)
+        ctx.check("C02-b", "%s#SharedState::%s#direct-call" % (fk, strip_generics(callee_key(ct)).split("::")[-1]), fk in SHARED_DIRECT_OK,
+                  "direct SharedState mutation inside %s" % SHARED_DIRECT_OK.get(fk, ""),
+                  "%s mutates term / vote through SharedState directly, bypassing the RaftRoleState methods whose call sites the persist-before-reply (C02-a) and "
+                  "monotonicity (C02-c) rules enumerate" % fk, loc(cb, cbi))
+    ctx.floor("C02-b", n, 4, "direct calls of the SharedState term/vote mutators (the delegating methods)")
